@@ -258,6 +258,15 @@ def run_case(case, seed):
                 fails.append(fail("raised", f"restore_matrix: {Xm}", **t2))
             elif np.max(np.abs(Xm - ref)) > tol:
                 fails.append(fail("restore_matrix!=normal_equations", f"kernel {nm} lam={lam}: max dev {np.max(np.abs(Xm - ref)):.3e}", lam=lam, **t2))
+            # the operator in another exactly representable dtype (integer kernels: int64 / int32 / float32 matrices) is the same operator
+            if ok and nm != "nearcancel" and np.array_equal(A, np.round(A)) and np.max(np.abs(A)) < 2 ** 20:
+                for dt in (np.int64, np.int32, np.float32):
+                    okd, Xd = call(q.qslst_restore_matrix, B, A.astype(dt), lam)
+                    evals += 1
+                    if not okd:
+                        fails.append(fail("raised", f"restore_matrix with a {np.dtype(dt).name} operator: {Xd}", **t2))
+                    elif np.max(np.abs(Xd - ref)) > max(tol, 1e-5 * max(1.0, np.max(np.abs(ref))) if dt == np.float32 else tol):
+                        fails.append(fail("restore_matrix!=normal_equations", f"kernel {nm} lam={lam}, operator dtype {np.dtype(dt).name}: max dev {np.max(np.abs(Xd - ref)):.3e}", lam=lam, op_dtype=np.dtype(dt).name, **t2))
             if lam == 0.0 and ok:
                 # inverts the blur
                 X0 = fill.dyadic((H, W, 4), bits=3, lo=-16, hi=16)
